@@ -42,6 +42,27 @@ func genC06(r *sim.Rand, tier string) *sim.Case {
 	c.Cfg["api"] = int64(api)
 	c.Cfg["value_threshold"] = r.Pick64(32, 64, 1<<20)
 	n := 12 + r.Intn(30)
+	if r.Intn(3) == 0 {
+		// Layout prefix: every key written once (a subset twice, into a second table),
+		// then moved down into the sorted run of the last level, where levels are read
+		// through the concatenating iterator; the random part then scans that.
+		wr := func(ki int) sim.Op {
+			if api == 0 {
+				return sim.Op{K: "set", B: int64(ki), C: int64(r.Intn(6))}
+			}
+			return sim.Op{K: "txn", A: int64(1) << uint(ki), C: int64(r.Intn(6))}
+		}
+		for ki := 0; ki < nkeys; ki++ {
+			c.Ops = append(c.Ops, wr(ki))
+			if r.Intn(3) == 0 {
+				c.Ops = append(c.Ops, sim.Op{K: "rotate"})
+			}
+		}
+		c.Ops = append(c.Ops, sim.Op{K: "rotate"}, sim.Op{K: "flushall"},
+			sim.Op{K: "compact", A: 0, B: 2, C: 2, D: 1}, sim.Op{K: "compact", A: 6, B: 0, C: 2},
+			sim.Op{K: "iter", A: int64(r.Intn(256)), B: int64(r.Intn(len(boundPool))), C: int64(r.Intn(len(boundPool))), D: int64(r.Intn(1 << 20))})
+		n = 6 + r.Intn(20)
+	}
 	for i := 0; i < n; i++ {
 		switch x := r.Intn(100); {
 		case x < 25:
@@ -289,6 +310,18 @@ func checkIter(w *World, op sim.Op, hist map[string][]mvEntry, plain bool, nkeys
 	lower, upper := []byte(boundPool[int(op.B)%len(boundPool)]), []byte(boundPool[int(op.C)%len(boundPool)])
 	prefix := []byte(boundPool[int(op.D)%len(boundPool)])
 	targets := [][]byte{nil, []byte(boundPool[int(op.D>>4)%len(boundPool)]), []byte(boundPool[int(op.D>>8)%len(boundPool)])}
+	// ... and the smallest and the largest key of the key space: the first key of
+	// the first table and the last key of the last table of every sorted run.
+	lo, hi := keyNames[0], keyNames[0]
+	for _, k := range keyNames[:nkeys] {
+		if k < lo {
+			lo = k
+		}
+		if k > hi {
+			hi = k
+		}
+	}
+	targets = append(targets, []byte(lo), []byte(hi))
 	now := uint64(time.Now().Unix())
 	sigBase := func() map[string]string {
 		s := map[string]string{"iterator": "txn", "reverse": yn(reverse), "all_versions": yn(all), "key_only": yn(keyOnly)}
